@@ -35,7 +35,6 @@ PoolQ == <<Pool[1], Pool[2], Pool[3], Pool[4], Pool[6], Pool[7], Pool[9]>>
 QueriesQ == {
   Qy(<<a, dot, b>>, <<>>, <<>>, 1, 2), Qy(<<a, dot, b>>, <<>>, <<>>, 1, 4), Qy(<<a, dot, b>>, <<>>, <<>>, 2, 2),
   Qy(<<AA, dot, BB, dot>>, <<>>, <<>>, 1, 3), Qy(<<a, b>>, <<>>, <<>>, 1, 3),
-  Qy(<<c, dot, b>>, <<1, 1, 1, 1>>, <<>>, 1, 3),
-  Qy(<<c>>, <<>>, V6a, 1, 1), Qy(<<c>>, <<>>, V6b, 1, 1), Qy(<<c>>, <<>>, <<>>, 1, 1)
+  Qy(<<c>>, <<>>, V6a, 1, 1), Qy(<<c>>, <<>>, <<>>, 1, 1)
 }
 ====
